@@ -646,6 +646,10 @@ class Abstractor:
             if sl is not None and not (isinstance(sl, (tuple, list)) and all(isinstance(x, str) for x in sl)):
                 self.unsupported.append("odd __slots__")
                 sl = None
+            if sl is not None and any(x.startswith("__") and not x.endswith("__") for x in sl):
+                # private slot names are stored mangled (C16-H4); the model reads __slots__ literally
+                self.unsupported.append("odd __slots__")
+                sl = None
             for b in o.__bases__:
                 if b is not object and b is not type and not self.is_modclass(b):
                     self.unsupported.append("foreign base")
@@ -1957,10 +1961,21 @@ class C16(Prop):
             return f.get("what", "").startswith("xreload raised although") and sub in (f.get("msg") or "")
         return pred
 
+    @staticmethod
+    def _fam_slots_literal(case, f):
+        """C16-H4: AssertionError out of _livepatch__setattr (a member descriptor reached it) on a pair in which a class
+        has a __slots__ that is a single string or lists a private (name-mangled) name"""
+        if not (f.get("what", "").startswith("xreload raised although") and f.get("err") == "AssertionError"):
+            return False
+        pat = re.compile(r"__slots__ = (?:'\w\w+'|\((?:'\w+', )*'__\w*[^_'\W]')")
+        return any(pat.search(st) for st in case["new"]) and any(pat.search(st) for st in case["old"])
+
     families = {}
 
 
 C16.families = {
+    "empty_closure_cell": C16._fam_raise("Cell is empty"),
+    "slots_names_taken_literally": C16._fam_slots_literal,
     "closure_cell_value_changed": C16._fam_d17,
     "inmodule_bases_are_scratch_classes": C16._fam_d18,
     "scratch_born_objects_bound": C16._fam_scratch,
